@@ -12,6 +12,8 @@ using namespace romea::core;
 
 namespace {
 
+bool g_th = false;   // thorough tier: more rotations
+
 template <class S> S ulp(S x) { x = std::fabs(x); return std::nextafter(x, std::numeric_limits<S>::infinity()) - x; }
 template <class V> std::string vj(const V& v) { std::vector<long double> w(v.size()); for (int i = 0; i < v.size(); ++i) w[i] = v[i]; return vf::jarr(w); }
 
@@ -21,11 +23,13 @@ const double kH[] = {0, 0.25, 2};
 template <class S, size_t DIM> std::vector<Eigen::Matrix<S, DIM, DIM>> rotations() {
   std::vector<Eigen::Matrix<S, DIM, DIM>> v;
   if constexpr (DIM == 2) {
-    for (int k = 0; k < 16; ++k) { double a = k * M_PI / 8 + (k % 3 == 1 ? 0.1 : 0); Eigen::Matrix<S, 2, 2> R; R << (S)std::cos(a), (S)-std::sin(a), (S)std::sin(a), (S)std::cos(a); v.push_back(R); }
+    for (int k = 0; k < (g_th ? 64 : 16); ++k) { double a = k * M_PI / (g_th ? 32 : 8) + (k % 3 == 1 ? 0.1 : 0); Eigen::Matrix<S, 2, 2> R; R << (S)std::cos(a), (S)-std::sin(a), (S)std::sin(a), (S)std::cos(a); v.push_back(R); }
   } else {
     using V3 = Eigen::Matrix<S, 3, 1>;
     std::vector<V3> axes = {V3(1, 0, 0), V3(0, 1, 0), V3(0, 0, 1), V3(1, 1, 0), V3(1, -1, 1), V3(-2, 1, 3)};
     for (auto& ax : axes) for (double a : {0.0, 0.3, M_PI / 2, 2.0, M_PI, -1.1}) v.push_back(Eigen::AngleAxis<S>((S)a, ax.normalized()).toRotationMatrix());
+    if (g_th) { for (V3 ax : {V3(0.1f, -1, 0.2f), V3(3, 2, -1), V3(1, 0, 1), V3(0, 1, -1)}) for (double a : {1e-3, 0.7, 1.3, 2.6, -3.0}) v.push_back(Eigen::AngleAxis<S>((S)a, ax.normalized()).toRotationMatrix());
+      v.push_back((Eigen::AngleAxis<S>((S)0.9, V3::UnitX()) * Eigen::AngleAxis<S>((S)0.6, V3::UnitZ())).toRotationMatrix()); v.push_back((Eigen::AngleAxis<S>((S)-0.4, V3::UnitY()) * Eigen::AngleAxis<S>((S)2.2, V3::UnitX()) * Eigen::AngleAxis<S>((S)1.0, V3::UnitZ())).toRotationMatrix()); }
   }
   return v;
 }
@@ -186,9 +190,10 @@ template <class S, int DIM> void containers(vf::Ctx& c, const char* tname) {
 }  // namespace
 
 // cases: 4 types x 5 first-axis centres (boxes) ; 4 interval ; 8 extents ; 1 containers
-uint64_t vf_ncases(const std::string& tier) { return 20 + 4 + 8 + 1; }
+uint64_t vf_ncases(const std::string& tier) { g_th = tier == "thorough"; return 20 + 4 + 8 + 1; }
 
 void vf_run(uint64_t idx, const std::string& tier, vf::Ctx& c) {
+  g_th = tier == "thorough";
   if (idx < 20) {
     size_t ic0 = idx % 5;
     switch (idx / 5) { case 0: boxes<double, 2>(c, "double2", ic0); break; case 1: boxes<double, 3>(c, "double3", ic0); break; case 2: boxes<float, 2>(c, "float2", ic0); break; default: boxes<float, 3>(c, "float3", ic0); }
@@ -205,6 +210,7 @@ void vf_run(uint64_t idx, const std::string& tier, vf::Ctx& c) {
 std::string vf_describe(const std::string& tier) {
   vf::JO o;
   o.vec("centres_per_axis", std::vector<double>(kC, kC + 5)).vec("half_extents_per_axis", std::vector<double>(kH, kH + 3));
+  o.str("rotations_thorough", "2D: 64 angles; 3D: + 4 axes x 5 angles and two compositions of elementary rotations");
   o.str("rotations", "2D: 16 angles (multiples of pi/8, some offset by 0.1); 3D: 6 axes x {0,0.3,pi/2,2,pi,-1.1}");
   o.str("query_points", "box-frame lattice per axis {0,+-h/2,+-h,+-h(1+-2^-20),+-2h,+-(h+0.5)} mapped to world; points within 8 ulp of a face accept either verdict, except centre 0 without rotation where the face verdict is exact");
   o.str("intervals", "all pairs of intervals with bounds from {-1000,-1.5,0,0.25,1000}, per-axis rotation of the pair list; 1-D specialisation too");
